@@ -181,6 +181,10 @@ func genC06(r *core.Rand, run int) *MuxScenario {
 		if tr.codec == "json" && r.Chance(1, 4) {
 			sp.Method = "chat" // string fields: quotes, backslashes, braces and multi-byte runes inside JSON strings
 		}
+		if tr.proto == "http" && r.Chance(1, 4) {
+			sp.Method = "bidisel" // path variable + body selector on a streaming route
+			sp.PathVar = r.PickS("a", "msg-1", "x.y_z")
+		}
 	}
 	mi := methods[sp.Method]
 	sp.Compress = tr.proto != "ws" && r.Chance(1, 4)
